@@ -237,6 +237,56 @@ struct HdrSession {
 
         // ------------------------------------------------------------ readers
         // bytes: header followed by some payload; fed in chunks
+        // A state that was used for something else, abandoned half way and then reset must behave like a fresh one (C15) - here: for
+        // the stand-alone header readers.  prior 1: a gzip header parse abandoned inside the file name; 2: a stored block abandoned in
+        // its payload; 3: a zlib header parse abandoned inside DICTID.
+        void dirty_then_reset(struct inflate_state *st)
+        {
+                int prior = (int) ((uint64_t) plan.geti("prior") % 4);
+                if (!prior)
+                        return;
+                static const uint8_t gz[] = { 0x1f, 0x8b, 8, 8, 1, 2, 3, 4, 0, 0xff, 'a', 'b', 'c', 'd', 'e' };
+                static const uint8_t sb[] = { 0x00, 0x10, 0x00, 0xef, 0xff, 'p', 'q', 'r', 's', 't' };
+                static const uint8_t zl[] = { 0x78, 0x20, 0x12, 0x34 };
+                const uint8_t *src = prior == 1 ? gz : prior == 2 ? sb : zl;
+                size_t n = prior == 1 ? sizeof gz : prior == 2 ? sizeof sb : sizeof zl;
+                Slot *si = g_arena.alloc(n, place, "prior_in", 0, 1), *so = g_arena.alloc(32, PLACE_END, "prior_out", fill + 40, 1);
+                Slot *sg = g_arena.alloc(sizeof(struct isal_gzip_header), PLACE_END, "prior_gzip_header", fill + 41, 8), *snm = g_arena.alloc(16, PLACE_END, "prior_name", fill + 42, 1);
+                if (!si || !so || !sg || !snm)
+                        return;
+                memcpy(si->data, src, n);
+                if (GUARDED(gc, {
+                            st->next_in = si->data;
+                            st->avail_in = (uint32_t) n;
+                            st->next_out = so->data;
+                            st->avail_out = 32;
+                            if (prior == 1) {
+                                    struct isal_gzip_header *g = (struct isal_gzip_header *) sg->data;
+                                    isal_gzip_header_init(g);
+                                    g->name = (char *) snm->data;
+                                    g->name_buf_len = 16;
+                                    isal_read_gzip_header(st, g);
+                            } else if (prior == 2) {
+                                    st->crc_flag = ISAL_DEFLATE;
+                                    isal_inflate(st);
+                            } else {
+                                    struct isal_zlib_header z;
+                                    isal_zlib_header_init(&z);
+                                    isal_read_zlib_header(st, &z);
+                            }
+                            isal_inflate_reset(st);
+                    })) {
+                        report_fault(rr, h, gc.fi, "abandoned use of the state followed by isal_inflate_reset");
+                        return;
+                }
+                st->crc_flag = ISAL_DEFLATE;
+                COUNT("mem.header_reader_on_reset_state");
+                g_arena.release(si);
+                g_arena.release(so);
+                g_arena.release(sg);
+                g_arena.release(snm);
+        }
+
         void read_gzip(const std::vector<uint8_t> &bytes, bool garbage)
         {
                 RefInflate ref;
@@ -250,6 +300,9 @@ struct HdrSession {
                 struct inflate_state *st = (struct inflate_state *) ss->data;
                 struct isal_gzip_header *gh = (struct isal_gzip_header *) sh->data;
                 isal_inflate_init(st);
+                dirty_then_reset(st);
+                if (rr.violated())
+                        return;
                 isal_gzip_header_init(gh);
                 const Json &bf = plan.at("bufs");
                 // initial field buffers: size >=0, or -1 for NULL (field disregarded)
@@ -501,6 +554,9 @@ struct HdrSession {
                 struct inflate_state *st = (struct inflate_state *) ss->data;
                 struct isal_zlib_header *zh = (struct isal_zlib_header *) sh->data;
                 isal_inflate_init(st);
+                dirty_then_reset(st);
+                if (rr.violated())
+                        return;
                 isal_zlib_header_init(zh);
                 const Json &sp = plan.at("splits");
                 size_t fed = 0, si = 0;
@@ -675,6 +731,7 @@ static Json gen_hdr(Rng &r0, const std::string &focus, int tier)
                 bf.push(q == 0 ? -1 : q < 4 ? (int64_t) r.below(12) : q < 6 ? (int64_t) r.logsize(k == 2 ? 66000 : 3200) : (int64_t) (k == 2 ? 66000 : 3200));
         }
         p.set("bufs", bf).set("grow", (int) (r.chance(1, 2) ? r.below(4) : r.below(600))).set("ps", r.u64() >> 20).set("tailbytes", (int) r.below(40));
+        p.set("prior", r.chance(1, 3) ? (int) (1 + r.below(3)) : 0);
         p.set("unterm", r.chance(1, 8) ? (int) (1 + r.below(3)) : 0).set("untermk", r.chance(1, 2) ? 0 : (int64_t) r.below(1 << 16));
         p.set("corrupt", (int) r.below(8)).set("trunc", r.chance(1, 8) ? (int64_t) (1 + r.below(4000)) : 0).set("bigextra", (int) r.chance(1, 6));
         Json mem = Json::obj();
